@@ -107,7 +107,7 @@ def enumerated_runs(quick, seed):
                         "seg": [None, 7, 100][variant]}
                 for dmg in enumerate_damage(base, quick, rng):
                     case = dict(base, damage=dmg)
-                    apis = rng.sample(APIS, 3 if quick else 6)
+                    apis = rng.sample(APIS, 2 if quick else 6)
                     for api in apis:
                         prefix = rng.choice(PREFIX) if rng.random() < 0.4 else None
                         r = api_run(case, api, prefix)
@@ -143,7 +143,7 @@ def run(rep):
             "NextRequest"]
     base = dict(sc=sc, dk="AllDamage", amts="A27", amts1="A7", into="A3", gen="A27", maxops=3)
     plans = [("repaired design, damaged responses",
-              dict(base, sc="ScC13S1", maxops=4, _workers=max(2, bc.JOBS // 2)) if quick else
+              dict(base, sc="ScC13S1", maxops=3, _workers=max(2, bc.JOBS // 2)) if quick else
               dict(base, sc="ScC13S1", maxops=6, after=2, amts="AFull", amts1="A1237", gen="A1237", _cov=True, _need=need), None)]
     for d in ("JustD11", "JustF1", "JustF2", "JustF3", "JustF4"):
         plans.append((f"deviation {d[4:]} exhibited", dict(base, sc="ScC13Dev" if quick else "ScC13", maxops=3, kd=d),
